@@ -116,20 +116,20 @@ def layout_plan(tier, rng, linkable_only=False):
     if tier == "quick":
         plan = [
             ("full",    dict(skels=["s3"], mode="bfs", maxgaps=1, maxper=1, allowed="first", choices=ALL_CHOICES, full=True), 1, None, None),
-            ("single",  dict(skels=["x", "s2", "s3"], mode="bfs", maxgaps=1, maxper=1, allowed="all", choices=ALL_CHOICES), 2, None, None),
+            ("single",  dict(skels=["x", "s3"], mode="bfs", maxgaps=1, maxper=1, allowed="all", choices=ALL_CHOICES), 2, None, None),
             ("samegap", dict(skels=["x"], mode="bfs", maxgaps=1, maxper=2, allowed="first", choices=ALL_CHOICES), 1, None, None),
-            ("twogaps", dict(skels=["s2"], mode="bfs", maxgaps=2, maxper=1, allowed="first", choices=six + ["LC", "BOM", "LCE"]), 1, None, None),
-            ("sim",     dict(skels=["p3", "x"], mode="sim", maxgaps=0, maxper=2, allowed="all", choices=ALL_CHOICES, density=25), 1, 120, 600),
+            ("twogaps", dict(skels=["s2"], mode="bfs", maxgaps=2, maxper=1, allowed="first", choices=six), 1, None, None),
+            ("sim",     dict(skels=["p3", "x", "s2"], mode="sim", maxgaps=0, maxper=2, allowed="all", choices=ALL_CHOICES, density=25), 1, 150, 600),
         ]
     else:
         plan = [
             ("full",    dict(skels=["s3"], mode="bfs", maxgaps=1, maxper=1, allowed="all", choices=ALL_CHOICES, full=True), 2, None, None),
             ("fullx",   dict(skels=["x", "s2"], mode="bfs", maxgaps=1, maxper=2, allowed="first", choices=CORE_CHOICES + ["BCM", "LCE", "BOM", "VT"], full=True), 2, None, None),
             ("single",  dict(skels=["x", "p2", "p3", "ed", "s2", "s3"], mode="bfs", maxgaps=1, maxper=1, allowed="all", choices=ALL_CHOICES), 3, None, None),
-            ("samegap", dict(skels=["x", "p2", "p3", "ed"], mode="bfs", maxgaps=1, maxper=2, allowed="reps", choices=ALL_CHOICES), 3, None, None),
+            ("samegap", dict(skels=["x", "p2", "ed"], mode="bfs", maxgaps=1, maxper=2, allowed="reps", choices=ALL_CHOICES), 3, None, None),
             ("triple",  dict(skels=["x", "ed"], mode="bfs", maxgaps=1, maxper=3, allowed="first", choices=CORE_CHOICES + ["LCE", "BOM"]), 2, None, None),
-            ("twogaps", dict(skels=["x", "p2", "ed"], mode="bfs", maxgaps=2, maxper=1, allowed="first", choices=ALL_CHOICES), 3, None, None),
-            ("sim",     dict(skels=["x", "p2", "p3", "ed"], mode="sim", maxgaps=0, maxper=2, allowed="all", choices=ALL_CHOICES, density=20), 1, 2500, 600),
+            ("twogaps", dict(skels=["x", "ed"], mode="bfs", maxgaps=2, maxper=1, allowed="first", choices=ALL_CHOICES), 3, None, None),
+            ("sim",     dict(skels=["x", "p2", "p3", "ed"], mode="sim", maxgaps=0, maxper=2, allowed="all", choices=ALL_CHOICES, density=20), 1, 1500, 600),
             ("simdense", dict(skels=["p2", "ed"], mode="sim", maxgaps=0, maxper=2, allowed="all", choices=ALL_CHOICES, density=70), 1, 300, 600),
         ]
     if linkable_only:          # C23: layouts of the featgen skeletons only (they must link), a lighter plan: cases are sampled
@@ -149,9 +149,11 @@ def layout_plan(tier, rng, linkable_only=False):
     return plan
 
 
-def gen_layouts(wd, plan, width):
+def gen_layouts(wd, plan, width, maxworkers=3):
     """Run MCLayout for every plan entry; returns {name: (casefile, ncases, TLCResult, gapclasses Counter)}."""
     def job(name, cfg, workers, sim, depth):
+        workers = min(workers, maxworkers)
+
         def go():
             d = os.path.join(wd, "lay_" + name)
             os.makedirs(d, exist_ok=True)
@@ -264,7 +266,7 @@ def run_c11(pid, tier, replay):
         return 1 if n else 0
     rng = vf.rng()
     plan = layout_plan(tier, rng)
-    gen = gen_layouts(wd, plan, width=3 if tier == "quick" else 2)
+    gen = gen_layouts(wd, plan, width=5 if tier == "quick" else 2)
     _t("TLC: " + ", ".join("%s=%d/%.0fs" % (n, gen[n][1], gen[n][2].wall) for n in gen), t0)
     states = sum(r.distinct or c for _f, c, r, _c in gen.values())
     trans = sum(r.generated or c for _f, c, r, _c in gen.values())
@@ -395,7 +397,7 @@ def _classes(why):
 
 
 def _gen_ff(wd, tier):
-    runs = [("exh", 1 if tier == "quick" else 2, 0, None, 4), ("sim", 12, 4, 25 if tier == "quick" else 200, 1)]
+    runs = [("exh", 1 if tier == "quick" else 2, 0, None, 2), ("sim", 12, 4, 25 if tier == "quick" else 200, 1)]
     cap = {"exh": 10 ** 9, "sim": 40 if tier == "quick" else 300}     # -simulate exports every state it visits
 
     def job(name, maxf, emin, sim, workers):
@@ -422,7 +424,7 @@ def _gen_ff(wd, tier):
                 raise vf.MachineryError("MCSrcInfo (%s): spec-level check failed: %s, see %s" % (name, r.violated, r.stdout_path))
             return casefile, seen, r, schema
         return go
-    res = _parallel([job(*r) for r in runs], 2)
+    res = _parallel([job(*r) for r in runs], 1)
     return runs, res
 
 
@@ -444,14 +446,14 @@ def _check_lines(binary, wd, tier):
     d = os.path.join(wd, "lines")
     os.makedirs(d, exist_ok=True)
     with open(os.path.join(d, "lines.cfg"), "w") as fh:
-        fh.write(LINES_CFG % (3 if tier == "quick" else 5))
+        fh.write(LINES_CFG % (3 if tier == "quick" else 4))
     casefile = os.path.join(wd, "lines.jsonl")
     n = [0]
     with open(casefile, "w") as cf:
         def sink(o):
             cf.write(json.dumps(o, separators=(",", ":")) + "\n")
             n[0] += 1
-        r = _tlc("MCSrcInfoLines", "lines.cfg", d, workers=2, case_sink=sink, timeout=1200)
+        r = _tlc("MCSrcInfoLines", "lines.cfg", d, workers=1, case_sink=sink, timeout=1200)
     rc, out, err = vf.run_driver(binary, ["lines"], stdin_path=casefile, timeout=600)
     if rc != 0 or out.strip():
         raise vf.MachineryError("the driver's reference line table disagrees with SrcLines: %s %s" % (out[:800], err[-500:]))
@@ -517,7 +519,7 @@ def run_c23(pid, tier, replay):
     else:
         # generators: FileFeatures cases (+ schema), line-table cross-check, layouts of the featgen skeletons
         lay_plan = layout_plan(tier, rng, linkable_only=True)
-        res = _parallel([lambda: _gen_ff(wd, tier), lambda: gen_layouts(wd, lay_plan, 2), lambda: _check_lines(binary, wd, tier)], 3)
+        res = _parallel([lambda: _gen_ff(wd, tier), lambda: gen_layouts(wd, lay_plan, 2, maxworkers=2), lambda: _check_lines(binary, wd, tier)], 3)
         (ff_runs, ff_res), lay, (nlines, lines_r) = res
         _t("generators done", t0)
         schema = [s for _f, _s, _r, sch in ff_res for s in sch]
